@@ -931,6 +931,107 @@ def run_cases(ctx, cases, stream, use_driver=True, hand=False):
             oracle_cell(ctx, segs, q, real, c)
 
 
+# ------------------------------------------------------------------ call histories on ONE cell object (query, edit, query)
+def apply_edit(segs, byid, ed):
+    """apply one concrete in-place edit [kind, segment id, value] to the description `segs` and to the real objects"""
+    kind, sid, val = ed
+    tgt = next(s for s in segs if s[0] == sid)
+    obj = byid[sid]
+    if kind == "distal":
+        tgt[2] = [float(v) for v in val]
+        for nm, v in zip(("x", "y", "z", "diameter"), tgt[2]):
+            setattr(obj.distal, nm, v)
+    elif kind == "fraction":
+        tgt[3] = [tgt[3][0], float(val)]
+        obj.parent.fraction_along = float(val)
+    elif kind == "proximal":
+        tgt[1] = None if val is None else [float(v) for v in val]
+        obj.proximal = None if val is None else mkpt(tgt[1])
+
+
+def run_history(ctx, segs, qs, edits):
+    """The cell-level getters must describe the morphology AS IT IS NOW: query the getters, edit the cell in place,
+    query again on the SAME object and compare (same value / same exception class) with a freshly built cell holding
+    the edited morphology.  Decided on the real code alone (the model is stateless: the fresh-cell answers are what the
+    correspondence streams compare with the Lean definitions)."""
+    segs = [[s[0], None if s[1] is None else list(s[1]), list(s[2]), None if s[3] is None else list(s[3])] for s in segs]
+    init = _case_cell(segs, qs[0])
+    cell = build_cell(segs)
+    byid = {s.id: s for s in cell.morphology.segments}
+    lim = sys.getrecursionlimit()
+    sys.setrecursionlimit(300)
+    try:
+        done = []
+        for ed in edits:
+            for x in qs:                                   # first (or repeated) queries prime whatever the code caches
+                for fn in (cell.get_segment_length, cell.get_segment_volume, cell.get_segment_surface_area):
+                    attempt(lambda: fn(x))
+                attempt(lambda: cell.get_actual_proximal(x), point=True)
+            apply_edit(segs, byid, ed)
+            done.append(ed)
+            for x in qs:
+                again = {"prox": attempt(lambda: cell.get_actual_proximal(x), point=True),
+                         "length": attempt(lambda: cell.get_segment_length(x)),
+                         "volume": attempt(lambda: cell.get_segment_volume(x)),
+                         "area": attempt(lambda: cell.get_segment_surface_area(x))}
+                fresh = real_cell(segs, x)
+                case = {"kind": "history", "segs": init["segs"], "qs": list(qs),
+                        "edits": [[e[0], e[1], None if e[2] is None else (float(e[2]).hex() if e[0] == "fraction" else hx(e[2]))]
+                                  for e in done]}
+                ctx.seen(case, True)
+                ctx.count("history:" + ed[0])
+                for k in ("prox", "length", "volume", "area"):
+                    a, b = again[k], fresh[k]
+                    eq = ("err" in a and "err" in b and a["err"][0] == b["err"][0]) or \
+                         ("ok" in a and "ok" in b and (a["ok"] == b["ok"] or repr(a["ok"]) == repr(b["ok"])))
+                    if not eq:
+                        ctx.fail("C12:cell:history:" + k,
+                                 "after an in-place edit (%s of segment %s) the cell-level getter %s of segment %s still answers "
+                                 "for the OLD morphology: %s on the edited object, %s on a fresh cell with the same morphology"
+                                 % (ed[0], ed[1], k, x, canon_res(a), canon_res(b)), case)
+    finally:
+        sys.setrecursionlimit(lim)
+
+
+def history_cases(ctx, rng, n):
+    for _ in range(n):
+        c = gen_cell(rng, rng.random() < 0.5)
+        segs, q = decode(c)
+        segs = [[s[0], None if s[1] is None else list(s[1]), list(s[2]), None if s[3] is None else list(s[3])] for s in segs]
+        ids = [s[0] for s in segs]
+        if len(set(ids)) != len(ids) or q not in ids:
+            continue
+        qs = [q] + [i for i in ids if i != q][:2]
+        cur = {s[0]: s for s in [[t[0], t[1], list(t[2]), t[3]] for t in segs]}
+        edits = []
+        for _k in range(rng.randint(1, 3)):
+            tgt = cur[rng.choice(ids)]
+            kind = rng.choice(["distal", "distal", "fraction", "proximal", "diam", "drop-proximal"])
+            if kind == "distal":
+                d = list(tgt[2]); k = rng.randrange(3); d[k] = d[k] + rng.choice([1.0, -2.0, 0.5, 8.0])
+                tgt[2] = d; edits.append(["distal", tgt[0], d])
+            elif kind == "diam":
+                d = list(tgt[2]); d[3] = d[3] + rng.choice([0.5, 1.0, 2.0])
+                tgt[2] = d; edits.append(["distal", tgt[0], d])
+            elif kind == "fraction" and tgt[3] is not None:
+                edits.append(["fraction", tgt[0], rng.choice([0.0, 0.25, 0.5, 0.75, 1.0])])
+            elif kind == "proximal":
+                base = tgt[1] if tgt[1] is not None else tgt[2]
+                pnew = [base[0] + 1.0, base[1] - 0.5, base[2] + 2.0, base[3] + 0.25]
+                tgt[1] = pnew; edits.append(["proximal", tgt[0], pnew])
+            elif kind == "drop-proximal" and tgt[1] is not None and tgt[3] is not None:
+                tgt[1] = None; edits.append(["proximal", tgt[0], None])
+        if edits:
+            run_history(ctx, segs, qs, edits)
+
+
+def decode_history(case):
+    segs = [[s[0], unhx(s[1]), unhx(s[2]), None if s[3] is None else [s[3][0], float.fromhex(s[3][1])]] for s in case["segs"]]
+    edits = [[e[0], e[1], None if e[2] is None else (float.fromhex(e[2]) if e[0] == "fraction" else unhx(e[2]))]
+             for e in case["edits"]]
+    return segs, case["qs"], edits
+
+
 def new_failures(ctx, known):
     """failures found so far whose key is not a listed (open) known finding"""
     return [f for f in ctx.failures if f["key"] not in known]
@@ -952,6 +1053,9 @@ def sweep(ctx, rng, known, stop_early):
         run_cases(ctx, [g() for _ in range(n)], name)
         if stop_early and new_failures(ctx, known):
             return True
+    history_cases(ctx, rng, ctx.n(300, 4000))
+    if stop_early and new_failures(ctx, known):
+        return True
     return False
 
 
@@ -1047,6 +1151,10 @@ def regenerate(ctx):
 
 def replay(ctx, payload):
     case = payload["case"]
+    if case.get("kind") == "history":
+        segs, qs, edits = decode_history(case)
+        run_history(ctx, segs, qs, edits)
+        return {"fails": bool(ctx.failures), "failures": ctx.failures}
     case = {k: case[k] for k in case if k in ("kind", "p", "d", "segs", "q", "trans", "ks")}
     # self-contained: retranslate the current tree and rebuild the Float model; without a model only the oracle runs
     gaps = regenerate(ctx)
